@@ -601,7 +601,7 @@ class Dataset(AbstractDataset, dict, OpMixin, GetSetDelAttrMixin):
         if not inplace:
             return ds
 
-    def reduce_axis(self, func, axis=0, keepdims=False, keepattrs=False, **kwargs):
+    def reduce_axis(self, func, axis=0, keepdims=False, keepattrs=False, newaxis=None, **kwargs):
         """ reduce an axis in a Dataset
 
         Parameters
@@ -609,11 +609,15 @@ class Dataset(AbstractDataset, dict, OpMixin, GetSetDelAttrMixin):
         func : operation that can be applied on a numpy array, 
             which takes `axis` int argument
         keepdims : whether or not the axis is removed by the transformation
+        newaxis : if keepdims is True, the transformed axis (by default obtained 
+            by applying func on the axis values)
         **kwargs : passed to func
         """
         # prepare new axes
         pos, name = self._get_axis_info(axis)
-        if keepdims:
+        if keepdims and newaxis is not None:
+            newaxes = [ax.copy() if ax.name != name else newaxis for ax in self.axes]
+        elif keepdims:
             newaxes = [ax.copy() if ax.name != name else Axis(func(ax.values, axis=0, **kwargs), ax.name) for ax in self.axes]
         else:
             newaxes = [ax.copy() for ax in self.axes if ax.name != name ]
@@ -725,7 +729,7 @@ class Dataset(AbstractDataset, dict, OpMixin, GetSetDelAttrMixin):
         kwargs = _interp_internal_get_weights(curaxis.values, newaxis.values)
 
         # loop over all dimarray
-        return obj.reduce_axis(_interp_internal_from_weight, axis=axis, keepdims=True, keepattrs=True, left=left, right=right, **kwargs)
+        return obj.reduce_axis(_interp_internal_from_weight, axis=axis, keepdims=True, keepattrs=True, newaxis=newaxis, left=left, right=right, **kwargs)
 
     def interp_like(self, other, **kwargs):
         """Analogous to DimArray.interp_like
